@@ -973,6 +973,9 @@ func (x *run) quiesce() {
 		delete(x.w.Net.Partition, k)
 	}
 	for _, rs := range x.reps {
+		if rs.wiped {
+			continue
+		}
 		x.w.Act(rs.r)
 		if !rs.alive {
 			if err := rs.r.Open(); err != nil {
@@ -1320,6 +1323,10 @@ func (e *Engine) Describe(prop string) sim.PropInfo {
 	case "C09":
 		info.Rule = "plans biased to identity mutation (name, email, login, avatar, metadata, invalid values) on any replica that knows the identity, with push/pull in between, so that all (common prefix, local suffix, remote suffix) classes arise; each identity merge is judged against the chains decoded by the reference decoder; non-trivial = an identity merge whose expected outcome is updated or refused-diverged happened; distinct = distinct event-log hash"
 		info.Kinds = []string{"id-changed", "history-not-append-only", "ff-not-applied", "ff-status-wrong", "nothing-case-changed-local", "diverged-accepted", "diverged-changed-local", "invalid-identity-accepted"}
+	case "C14":
+		info.Rule = "replicas with 0-3 configured remotes (1-3 hubs; replica 0 holds any subset of them), any subset of which hold the entity; removal of a bug (entity API, cache API by prefix, CLI `bug rm` run in-process as its own simulated process) or of an identity at any point of an edit/push/pull history; then: repeat the removal, merge every remote again without fetching, close and reopen, rebuild a cache from a copy; a `wipe` through the CLI ends some runs; oracle: all refs of the entity gone, every other ref, .git/config and every file of .git/git-bug outside cache/index byte-identical, entity not found by id, prefix, query or search; non-trivial = at least one successful removal or wipe; distinct = distinct event-log hash"
+		info.Kinds = []string{"ref-survived", "tracking-ref-survived", "cache-entry-survived", "index-doc-survived", "frame-broken", "still-resolvable", "resurrected-without-fetch", "second-removal-harmful", "wipe-left-residue"}
+		info.Assumptions = append(info.Assumptions, "identities that still author local bugs are not removed by the workload (that would legitimately break those bugs)", "ids sharing a long prefix cannot be engineered with hashed ids; removal by prefix uses 8-27 characters")
 	case "C11":
 		info.Rule = "sessions of two or three cache-level replicas sharing a hub: new bug, every edit kind, commit, push, pull (updates of bugs that exist locally, diverged merges), removal, identity mutation, cache-size changes forcing eviction, clean close/reopen, reopen after the cache or index directory was lost; after EVERY step the acting replica's directory is copied, cache and index dropped in the copy, a second RepoCache built there and compared: ids, every excerpt field, identity excerpts, known labels, a generated query set, search hits for marker tokens, metadata look-ups, and (at the end) resolved snapshots; non-trivial = at least one comparison against a rebuilt cache; distinct = distinct event-log hash"
 		info.Kinds = []string{"ids-differ", "excerpt-differs", "snapshot-differs", "labels-differ", "query-differs", "search-differs", "metadata-lookup-differs", "identity-excerpt-differs"}
